@@ -49,6 +49,13 @@ func (a *AspectEliminationHeuristic) Spec_MethodParameters() interface{} {
 func (a *AspectEliminationHeuristic) Spec_ParseParams(dm *model.DecisionMaker) interface{} {
 	var params AspectEliminationHeuristicParams
 	utils.Spec_DecodeToStruct(dm.MethodParameters, &params)
+	// C20: missing weights, thresholds or out-of-range series parameters of a DECLARED criterion are rejected when the
+	// request is parsed - a bias that later removes the criterion must not hide them
+	dm.Criteria.Spec_ZipWithWeights(&params.Weights)
+	satisfaction_levels.Spec_Find(params.Function, params.Params, a.functions).Initialize(&model.DecisionMakingParams{
+		Criteria:                  dm.Criteria,
+		NotConsideredAlternatives: dm.KnownAlternatives,
+	})
 	return params
 }
 
